@@ -56,11 +56,17 @@ func NewDStarLite(s, t graph.Node, g graph.Graph, h path.Heuristic, m WorldModel
 
 	d := &DStarLite{
 		s: newDStarLiteNode(s),
-		t: newDStarLiteNode(t), // badKey is overwritten below.
 
 		model: m,
 
 		heuristic: h,
+	}
+	if s.ID() == t.ID() {
+		// Starting at the goal: the world model holds one
+		// node per ID, so start and goal must share it.
+		d.t = d.s
+	} else {
+		d.t = newDStarLiteNode(t) // badKey is overwritten below.
 	}
 	d.t.rhs = 0
 
